@@ -36,7 +36,12 @@ let table : (string * (Model.z -> Model.z -> string)) list = [
   "op%=.u", one Model.op_modeq_u; "op%=.i", one Model.op_modeq_i;
   "op%=.T", one Model.op_modeq_T; "op%=.Ts", one Model.op_modeq_T;
   "op%.I", one Model.op_mod_I; "op%.ul", one Model.op_mod_ul; "op%.l", one Model.op_mod_l;
-  "op%.u", one Model.op_mod_u; "op%.i", one Model.op_mod_i; "op%.us", one Model.op_mod_us; "op%.d", one Model.op_mod_d; "op%.Ts", one Model.op_mod_Ts;
+  "op%.u", one Model.op_mod_u; "op%.i", one Model.op_mod_i; "op%.us", one Model.op_mod_us; "op%.d", one Model.op_mod_d; "op%.dx", one Model.op_mod_dx; "op%.Tf", one Model.op_mod_Tf;
+  "op/.s", one Model.op_div_i; "op/.us", one Model.op_div_i; "op/.c", one Model.op_div_i;
+  "op/=.Tus", one Model.op_diveq_T; "op/=.Tc", one Model.op_diveq_T; "op/=.Tuc", one Model.op_diveq_T; "op/=.Td", one Model.op_diveq_T;
+  "op%=.Tus", one Model.op_modeq_T; "op%=.Tc", one Model.op_modeq_T; "op%=.Tuc", one Model.op_modeq_T; "op%=.Td", one Model.op_modeq_T;
+  "mod.s", one Model.mod_i; "mod.us", one Model.mod_i; "mod.c", one Model.mod_i; "div.s", one Model.div_i; "div.c", one Model.div_i;
+  "op%.Ts", one Model.op_mod_Ts;
   "w%I.i", one Model.w_mod_I; "w%I.l", one Model.w_mod_I; "w%I.u", one Model.w_mod_I; "w%I.ul", one Model.w_mod_I;
   (* givinteger.h *)
   "dom.div", one Model.dom_div; "dom.divin", one Model.dom_divin; "dom.mod", one Model.dom_mod; "dom.modin", one Model.dom_modin;
